@@ -71,7 +71,17 @@ impl BitmapEvent {
                         rle_32_decompress(&self.data, self.width as u32, self.height as u32, &mut result)?;
                         result
                     } else {
-                        self.data
+                        // uncompressed rows are stored bottom-up
+                        let stride = self.width as usize * 4;
+                        let height = self.height as usize;
+                        if self.data.len() < stride * height {
+                            return Err(Error::RdpError(RdpError::new(RdpErrorKind::InvalidSize, "Bitmap data too short for its dimensions")))
+                        }
+                        let mut result = Vec::with_capacity(stride * height);
+                        for i in 0..height {
+                            result.extend_from_slice(&self.data[(height - i - 1) * stride..(height - i) * stride]);
+                        }
+                        result
                     }
                 )
             },
